@@ -8,6 +8,7 @@ import (
 	"fmt"
 	"github.com/6tail/lunar-go/LunarUtil"
 	"strings"
+	"time"
 
 	"github.com/6tail/lunar-go/calendar"
 	"lunarmon/ref"
@@ -213,6 +214,15 @@ func c18Moment(w *W, st ref.Stamp, class string) {
 		// one per day in the fixed order: (index - JDN) mod 28 is a constant; in step with the weekday: index mod 7 fixed by weekday
 		fd("law-mansion-order", "offset", fmt.Sprint(modI(xi-j, 28)))
 		fd("law-mansion-weekday", fmt.Sprint(ref.Weekday(j)), fmt.Sprint(xi%7))
+	}
+	// the same moment handed over as a time.Time (fields copied, whatever calendar Go thinks they belong to): same mansion,
+	// same weekday, same everything that hangs on them
+	if st.D <= 28 && (st.D+st.Mi)%6 == 0 && !(st.Y == 1582 && st.M == 10 && st.D > 4 && st.D < 15) {
+		lf := calendar.NewLunarFromDate(time.Date(st.Y, time.Month(st.M), st.D, st.H, st.Mi, st.S, 0, time.UTC))
+		if a, b := fmt.Sprint(lf.GetXiu(), lf.GetWeek(), lf.GetWeekInChinese(), lf.GetXiuLuck(), lf.GetXiuSong(), lf.GetZheng(), lf.GetAnimal(), lf.GetGong(), lf.GetShou()), fmt.Sprint(l.GetXiu(), l.GetWeek(), l.GetWeekInChinese(), l.GetXiuLuck(), l.GetXiuSong(), l.GetZheng(), l.GetAnimal(), l.GetGong(), l.GetShou()); a != b {
+			w.Violatef("law-mansion", key+"/from-time", "the Lunar built from a time.Time with the fields of %s reports mansion/weekday %s, the one built from the fields %s", key, a, b)
+		}
+		w.Eval(1)
 	}
 	if l.GetWeek() != ref.Weekday(j) {
 		w.Violatef("law-mansion", key+"/week", "Lunar.GetWeek=%d at %s, reference %d", l.GetWeek(), key, ref.Weekday(j))
